@@ -23,6 +23,7 @@ pub fn profiles04() -> Vec<Profile> {
         Profile { pratt: true, nodeops: true, parts: true, skips: true, returns: true, ..Profile::base("pratt-nodeops") },
         Profile { nodeops: true, actions: true, parts: true, skips: true, empty_rules: true, shuffle_decls: true, max_rules: 7, ..Profile::base("nodeops-actions") },
         Profile { pratt: true, max_rules: 3, depth: 2, ..Profile::base("pratt-small") },
+        Profile { pratt: true, pratt_shared_ops: true, max_rules: 3, max_tokens: 4, depth: 2, ..Profile::base("pratt-shared-ops") },
     ]
 }
 
